@@ -20,12 +20,17 @@ for mid in sorted(d for d in os.listdir(f"{V}/seeded") if os.path.isfile(f"{V}/s
         first = (r.get("first") or [""])[0]
         m = re.search(r"harness=(\S+) obligation=(.*?)(?: at |$)", first)
         how = (m.group(1).rsplit("::", 1)[-1] + ": " + m.group(2)[:110]) if m else "engine M (MIR): release-profile / panic-state obligation"
-        rows.append(f"| {mid} | {summ} | {meta['property']} ({r.get('wall_s')} s) | {how.replace('|', '/')} |")
+        sub = (r.get("subset") or {}).get("only") or ""
+        note = f" [harness subset: {sub}]" if sub else ""
+        rows.append(f"| {mid} | {summ} | {meta['property']} ({r.get('wall_s')} s){note} | {how.replace('|', '/')} |")
     else:
         others = [k for k, v in (r.get("others") or {}).items() if v.get("caught")]
         rows.append(f"| {mid} | {summ} | {meta['property']} | **not caught by the quick tier** (rc={r.get('rc')}){'; caught by ' + ','.join(others) if others else ''} |")
 rows.append("")
-rows.append(f"{c} of {n} seeded changes are caught by the quick check of the property they were written against.")
+rows.append(f"{c} of {n} seeded changes are caught by the quick check of the property they were written against.  "
+            "`[harness subset: ..]` = the run was restricted (`VERIF_ONLY`) to the named harnesses of that quick check to save "
+            "machine time (each full page-table check is ~15 min, 25-35 min with replays): the registered command runs a superset, "
+            "so a violation found by the subset is found by it as well.")
 p = f"{V}/DESIGN.md"
 s = open(p).read()
 a, b = "<!-- SEEDED-TABLE-BEGIN -->", "<!-- SEEDED-TABLE-END -->"
